@@ -517,12 +517,13 @@ namespace Pistache::Http::Experimental
             }
             else if (bytes == 0)
             {
-                if (totalBytes == 0)
-                {
-                    connection->handleError("Remote closed connection");
-                }
+                // The connection is given up before the request in flight is failed:
+                // failing it hands the connection over to the next queued request, which
+                // must open a new one. A request can be in flight even when a complete
+                // response has just been read: the one that was handed over on its completion.
                 connections.erase(connection->fd());
                 connection->close();
+                connection->handleError("Remote closed connection");
                 break;
             }
             else
